@@ -100,6 +100,7 @@ func fundTx() interfaces.Transaction {
 type sysA struct {
 	stores []*sk.Store // stores[k] holds the funding block and the first k chain blocks (read-only)
 	fund   interfaces.Transaction
+	sib    interfaces.Transaction     // three distinct outputs, in every store
 	chain  [][]interfaces.Transaction // blocks connectable in this order
 	refs   map[string]interfaces.Transaction
 	ids    map[string]common.Uint256
@@ -117,6 +118,15 @@ func newSysA() *sysA {
 	a.refs["u3"] = sk.Transfer(23, append(append(ins(f, 2), ins(t1.Hash(), 1)...), ins(t2.Hash(), 0)...), outs(sk.Out(addrB, 2000)))
 	a.refs["u4"] = sk.Transfer(24, ins(sk.H("no such transaction"), 0), outs(sk.Out(addrB, 1)))
 	a.refs["u5"] = sk.Transfer(25, ins(f, 99), outs(sk.Out(addrB, 1)))
+	// a previous transaction with three outputs of distinct values and addresses, spent one
+	// output at a time and two at a time (sibling outpoints must never be confused)
+	a.sib = sk.Transfer(26, ins(f, 4), outs(sk.Out(addrA, 100), sk.Out(addrB, 250), sk.Out(addrC, 650)))
+	p := a.sib.Hash()
+	a.refs["s0"] = sk.Transfer(27, ins(p, 0), outs(sk.Out(addrB, 100)))
+	a.refs["s1"] = sk.Transfer(28, ins(p, 1), outs(sk.Out(addrB, 250)))
+	a.refs["s2"] = sk.Transfer(29, ins(p, 2), outs(sk.Out(addrB, 650)))
+	a.refs["s01"] = sk.Transfer(30, ins(p, 0, 1), outs(sk.Out(addrB, 350)))
+	a.refs["s21"] = sk.Transfer(31, ins(p, 2, 1), outs(sk.Out(addrB, 900)))
 	a.ids["F"] = f
 	a.ids["t1"] = t1.Hash()
 	a.ids["none"] = sk.H("no such transaction")
@@ -140,6 +150,9 @@ func (a *sysA) build() {
 		s := freshStore()
 		if err := s.Connect(s.NewBlock(a.fund), nil); err != nil {
 			evid.Fatalf("utxocache: funding block: %v", err)
+		}
+		if err := s.Connect(s.NewBlock(a.sib), nil); err != nil {
+			evid.Fatalf("utxocache: sibling block: %v", err)
 		}
 		for _, txs := range a.chain[:k] {
 			if err := s.Connect(s.NewBlock(txs...), nil); err != nil {
@@ -169,7 +182,7 @@ func (in *instA) Ops() []string {
 	if in.next > 0 {
 		ops = append(ops, "reorg")
 	}
-	ops = append(ops, "ref:u1", "ref:u2", "ref:u3", "ref:u4", "ref:u5", "get:F", "get:t1", "get:none", "cleantx", "cleanall")
+	ops = append(ops, "ref:u1", "ref:u2", "ref:u3", "ref:u4", "ref:u5", "ref:s0", "ref:s1", "ref:s2", "ref:s01", "ref:s21", "get:F", "get:t1", "get:none", "cleantx", "cleanall")
 	return ops
 }
 
@@ -1098,7 +1111,7 @@ func main() {
 	defer sysA.destroy()
 	sysB := newSysB()
 	specs := map[string]*mc.Spec{
-		"utxocache":  {Name: "utxocache", New: sysA.New, MaxDepth: r.Pick(9, 12)},
+		"utxocache":  {Name: "utxocache", New: sysA.New, MaxDepth: r.Pick(11, 14)},
 		"blockcache": {Name: "blockcache", New: (&sysC{fund: fundTx()}).New, MaxDepth: r.Pick(5, 7)},
 		"sendcache":  {Name: "sendcache", New: newSysD().New, MaxDepth: r.Pick(6, 8), Serial: true},
 	}
